@@ -7,6 +7,17 @@ BASE_CMD = ("cd /repo && /venv/bin/python -m pytest -ra -q -p no:cacheprovider -
 TRUST = ("Trusted: CPython, numpy, the reference model in pmc/ref.py (exact rationals, self-tested against the "
          "documentation's worked examples), the enumerators' bounds as stated in the evidence file.")
 CHECKS = {
+ 'C09': dict(
+    technique="explicit-state exploration over recipe programs x stage layouts; oracle = independent per-step ledger built from prefix bakes (reference model), per-step accounting + stage arithmetic",
+    text="Every successfully baking program of <= 3/4 steps (8 143 / ~250 000) x 7-11 stage layouts (incl. an open stage at bake and refused stage calls) x every substance x destination sets x timeframes x units: "
+         "6.7 M get_substance_used answers per quick run compared with the ledger (gain of the destinations + discarded), net decrease => ValueError.",
+    note="Noise zone (|true net change| within a few storage resolutions) is don't-care between ValueError and 0; displayed precision. " + TRUST,
+    ref="DESIGN.md section 4 C09"),
+ 'C15': dict(
+    technique="explicit-state exploration over recipe programs x stage layouts; oracle = the same ledger: totals at start/end of the timeframe, per-step gains/losses per object and per well",
+    text="Same programs and layouts as C09 x every used container and plate (per well) x timeframes x 5 units x before/after: get_amount_remaining, get_container_flows in/out, non-negativity and the identity in - out = change of amount remaining (1.9 M queries per quick run).",
+    note="Objects not touched in the timeframe are not queried. " + TRUST,
+    ref="DESIGN.md section 4 C15"),
  'C07': dict(
     technique="exhaustive enumeration of plate shapes x slice geometries x operations, differential oracle: the same operation folded over free-standing copies of the addressed wells",
     text="6 plate-shape pairs with non-uniform wells x every slice geometry (single wells, all rectangles, stepped, lists, whole Plate) x container<->slice in 4 units and beyond capacity/content, remove, fill_to, "
